@@ -779,7 +779,7 @@ def coq_answers(cases, per_proc=2):
             d, t = build_case(cases[i], 'c%d_' % j)
             defs.append(d)
             terms.append(t)
-        res, err = common.coq_eval_N_lists(IMPORTS, '(fun x : list N => x)', terms, shard=len(terms), timeout=1500,
+        res, err = common.coq_eval_N_lists(IMPORTS, '(fun x : list N => x)', terms, shard=len(terms), timeout=3000,
                                            defs=DEFS + ''.join(defs))
         return [(res[j] if res else None, err) for j in range(len(bucket))]
 
@@ -1225,7 +1225,7 @@ def stream_corpus(ctx, fp):
     t0 = time.time()
     files = corpus_files(ctx)
     changed = any(v.startswith('missing') for v in fp.values())
-    nfiles = ctx.n(8, 70)
+    nfiles = ctx.n(8, 60)
     ctx.rng.shuffle(files)
     ccases, skipped = [], 0
     for path in files:
@@ -1233,7 +1233,7 @@ def stream_corpus(ctx, fp):
             break
         try:
             src = open(path, encoding='utf8').read()
-            if len(src) > ctx.n(16000, 60000):
+            if len(src) > ctx.n(16000, 40000):
                 continue
             rel = os.path.relpath(path, common.REPO)
             dotted = rel[:-3].split(os.sep)
